@@ -345,6 +345,13 @@ func (ch c10) runCase(c *core.Ctx, envPlain, envAuth *hs.Env, k c10case, idx int
 			pkt = msg[1:] // untyped: declared length + few bytes
 		}
 		cl := hs.NewClient(envPlain.Dial(sess))
+		stalled := over && k.Mode == "body" && idx%3 == 1 && len(pkt) > 24
+		if stalled {
+			// only the length word, the version and a few more bytes arrive, then the client waits: the
+			// declared length alone condemns the packet
+			pkt = pkt[:8+idx%12]
+			c.Count("oversized_startup_client_stalls", 1)
+		}
 		cl.C.Send(pkt)
 		if k.Mode != "body" {
 			cl.C.CloseWrite()
